@@ -77,6 +77,7 @@ def generate(tape, tier="quick"):
                 i["units"] = None
                 if tape.chance(1, 3):        # rule takes only the grid; units and time are given as values
                     i["rule_units"] = tape.choice(["m", "km"])
+                    i["rule_override"] = tape.chance(1, 2)     # ... or takes everything and overwrites the units
                 elif tape.chance(1, 3):      # rule takes time and units as selected fields; the grid is given as a value
                     i["rule_form"] = "fields"
             elif m == "connect":
@@ -87,6 +88,7 @@ def generate(tape, tier="quick"):
                 o["info"] = ["from_input", tape.choice(c["inputs"])["name"]]
                 if tape.chance(1, 3):
                     o["rule_units"] = tape.choice(["m", "km"])
+                    o["rule_override"] = tape.chance(1, 2)
                 elif tape.chance(1, 3):
                     o["rule_form"] = "fields"
             elif m == "connect":
